@@ -90,6 +90,8 @@ pub enum LenClass {
     Big300K,
     Max4M,
     Over4M,
+    /// somewhere inside `blocks` blocks for extents beyond one retirement write (256 blocks)
+    Wide(u16, u16),
 }
 
 #[derive(Clone, Copy, Debug, Serialize, Deserialize, PartialEq, Eq)]
@@ -258,6 +260,8 @@ pub struct Bias {
     pub ttl_toggle: bool,  // reopen may change the TTL switch
     pub get_weight: u32,
     pub few_keys: bool,
+    /// weight of values whose extent spans 200-600 blocks (more than one retirement write)
+    pub wide_extents: u32,
 }
 
 impl Default for Bias {
@@ -289,6 +293,7 @@ impl Default for Bias {
             ttl_toggle: true,
             get_weight: 14,
             few_keys: false,
+            wide_extents: 2,
         }
     }
 }
@@ -409,6 +414,7 @@ fn lenclass(b: &Bias) -> BoxedStrategy<LenClass> {
         b.multi_block * 3 => (2u8..7, any::<u16>()).prop_map(|(n, o)| LenClass::Multi(n, o)),
         big => Just(LenClass::Big300K),
         big => wone![3 => Just(LenClass::Max4M), 1 => Just(LenClass::Over4M)],
+        if b.big_values || b.wide_extents > 2 { b.wide_extents } else { 0 } => (prop_oneof![2 => 257u16..300, 2 => 300u16..600, 1 => 200u16..257, 1 => Just(512u16), 1 => Just(513u16)], any::<u16>()).prop_map(|(n, o)| LenClass::Wide(n, o)),
     ]
     .boxed()
 }
@@ -592,7 +598,7 @@ pub fn fill_cycle_strategy(versions: Vec<u32>) -> BoxedStrategy<Case> {
 /// intent spans several 512-byte sectors and can be torn.
 pub fn wide_batch_strategy(versions: Vec<u32>) -> BoxedStrategy<Case> {
     let nver = versions.len();
-    ((0..nver, any::<bool>(), any::<bool>(), any::<bool>()), 64usize..125, 0u64..1_000_000_000_000u64)
+    ((0..nver, any::<bool>(), any::<bool>(), any::<bool>()), prop_oneof![3 => 64usize..125, 1 => 129usize..300], 0u64..1_000_000_000_000u64)
         .prop_flat_map(move |((vi, plain_io, legacy_plain_meta, ttl), nkeys, t0_offset)| {
             let version = versions[vi];
             let cfg = Config {
@@ -629,6 +635,97 @@ pub fn wide_batch_strategy(versions: Vec<u32>) -> BoxedStrategy<Case> {
                 ops.extend(dels);
                 ops.push(Op::Flush);
             }
+            Case { cfg, keys, t0_offset, ops }
+        })
+        .boxed()
+}
+
+/// Crash engine: 2-3 keys whose values span 200-600 blocks on a 2400-block device, overwritten,
+/// deleted and TTL-updated between flushes: extents beyond one retirement write (256 blocks),
+/// multi-write marker chains, long journal replays.
+pub fn wide_extent_strategy(versions: Vec<u32>) -> BoxedStrategy<Case> {
+    let nver = versions.len();
+    ((0..nver, any::<bool>(), any::<bool>(), proptest::bool::weighted(0.6)), 2usize..4, 0u64..1_000_000_000_000u64)
+        .prop_flat_map(move |((vi, plain_io, legacy_plain_meta, ttl), nkeys, t0_offset)| {
+            let version = versions[vi];
+            let cfg = Config {
+                persistent: true,
+                version,
+                cache: false,
+                ttl,
+                dev: DevSize::Tiny(2400),
+                max_memory: None,
+                plain_io,
+                legacy_plain_meta: version < 3 && legacy_plain_meta,
+                visible_cpus: 2,
+            };
+            let keys: Vec<Vec<u8>> = (0..nkeys).map(|i| format!("x{i}").into_bytes()).collect();
+            let n = nkeys;
+            let wide = (prop_oneof![3 => 257u16..300, 2 => 300u16..600, 1 => 200u16..257, 1 => Just(512u16), 1 => Just(513u16)], any::<u16>()).prop_map(|(b, o)| ValSpec { len: LenClass::Wide(b, o), kind: ValKind::Stamp });
+            let small = (1u16..3000).prop_map(|l| ValSpec { len: LenClass::Small(l), kind: ValKind::Stamp });
+            let op = prop_oneof![
+                6 => (0..n, wide).prop_map(move |(j, v)| Op::Insert { k: key_at(j, n), v, ts: TsSpec::Auto, bytes: false }),
+                2 => (0..n, small).prop_map(move |(j, v)| Op::Insert { k: key_at(j, n), v, ts: TsSpec::Auto, bytes: false }),
+                2 => (0..n).prop_map(move |j| Op::Delete { k: key_at(j, n), ts: TsSpec::Auto }),
+                1 => (0..n, prop_oneof![Just(60u64), Just(1u64)]).prop_map(move |(j, ttl)| Op::UpdateTtl { k: key_at(j, n), ttl }),
+                1 => (0..n).prop_map(move |j| Op::Get { k: key_at(j, n), bytes: false }),
+                1 => Just(Op::Sleep),
+            ];
+            let round = (proptest::collection::vec(op, 1..4), prop_oneof![6 => Just(Some(Op::Flush)), 1 => Just(Some(Op::Reopen { cache: None, ttl: None })), 1 => Just(None)]);
+            (Just(cfg), Just(keys), Just(t0_offset), proptest::collection::vec(round, 2..7))
+        })
+        .prop_map(|(cfg, keys, t0_offset, rounds)| {
+            let mut ops = Vec::new();
+            for (body, end) in rounds {
+                ops.extend(body);
+                if let Some(e) = end {
+                    ops.push(e);
+                }
+            }
+            Case { cfg, keys, t0_offset, ops }
+        })
+        .boxed()
+}
+
+/// C14: ranges over more than 256 index entries (the scan re-pins its epoch guard every 256
+/// visited entries), with expired-but-unswept, deleted and updated entries inside the range and
+/// limits around the re-pin boundary.
+pub fn long_range_strategy() -> BoxedStrategy<Case> {
+    ((prop_oneof![3 => Just(false), 1 => Just(true)], proptest::bool::weighted(0.7), any::<bool>(), any::<bool>()), 257usize..620, 0u64..1_000_000_000_000u64)
+        .prop_flat_map(move |((persistent, ttl, cache, plain_io), nkeys, t0_offset)| {
+            let cfg = Config { persistent, version: 3, cache: persistent && cache, ttl, dev: DevSize::Large, max_memory: None, plain_io, legacy_plain_meta: false, visible_cpus: 2 };
+            let keys: Vec<Vec<u8>> = (0..nkeys).map(|i| format!("r{i:04}").into_bytes()).collect();
+            let n = nkeys;
+            let bound = move || prop_oneof![2 => Just(BoundSpec::Empty), 3 => (0..n).prop_map(move |j| BoundSpec::Key(key_at(j, n))), 1 => (0..n).prop_map(move |j| BoundSpec::KeyPlus(key_at(j, n))), 2 => Just(BoundSpec::AllFf)];
+            let limit = prop_oneof![Just(1u32), Just(255u32), Just(256u32), Just(257u32), Just(300u32), Just(511u32), Just(512u32), Just(513u32), (1u32..700), Just(u32::MAX)];
+            let small = || (1u16..200).prop_map(|l| ValSpec { len: LenClass::Small(l), kind: ValKind::Stamp });
+            let tail = prop_oneof![
+                8 => (bound(), bound(), limit).prop_map(|(start, end, limit)| Op::Range { start, end, limit }),
+                2 => (0..n).prop_map(move |j| Op::Delete { k: key_at(j, n), ts: TsSpec::Auto }),
+                2 => (0..n, small()).prop_map(move |(j, v)| Op::Insert { k: key_at(j, n), v, ts: TsSpec::Auto, bytes: false }),
+                1 => (0..n, prop_oneof![Just(1u64), Just(60u64)]).prop_map(move |(j, ttl)| Op::UpdateTtl { k: key_at(j, n), ttl }),
+                2 => prop_oneof![Just(1_500_000_000u64), Just(61_000_000_000u64), Just(10u64)].prop_map(|ns| Op::Advance(Advance::Ns(ns))),
+                1 => Just(Op::Flush),
+            ];
+            // per key: plain insert, short TTL, long TTL or left out
+            let fill = proptest::collection::vec((prop_oneof![6 => Just(0u8), 2 => Just(1u8), 1 => Just(2u8), 1 => Just(3u8)], small()), n..n + 1);
+            (Just(cfg), Just(keys), Just(t0_offset), fill, any::<bool>(), proptest::collection::vec(tail, 8..28))
+        })
+        .prop_map(|(cfg, keys, t0_offset, fill, flush_after_fill, tail)| {
+            let n = keys.len();
+            let mut ops = Vec::new();
+            for (j, (kind, v)) in fill.into_iter().enumerate() {
+                match kind {
+                    0 => ops.push(Op::Insert { k: key_at(j, n), v, ts: TsSpec::Auto, bytes: false }),
+                    1 => ops.push(Op::InsertTtl { k: key_at(j, n), v, ttl: 1, ts: TsSpec::Auto, bytes: false }),
+                    2 => ops.push(Op::InsertTtl { k: key_at(j, n), v, ttl: 60, ts: TsSpec::Auto, bytes: false }),
+                    _ => {}
+                }
+            }
+            if flush_after_fill {
+                ops.push(Op::Flush);
+            }
+            ops.extend(tail);
             Case { cfg, keys, t0_offset, ops }
         })
         .boxed()
